@@ -22,4 +22,4 @@ For each change, (a) the library still imports and the existing test suite passe
 For each change k in 1..4 write, inside {wt}/seeds/:
   - change{{k}}.diff : the patch (unified diff, `git diff` output relative to the worktree HEAD, touching only files under discretisedfield/ and not the tests);
   - note{{k}}.txt : three or four lines: what the change does, which kind it is, why the property still holds, and what observable behaviour outside the property (if any) it changes.
-Procedure for each: make the change, run the test suite (must pass as on the unchanged tree), save the diff, then `git checkout -- discretisedfield` to restore. Keep the worktree clean (apart from seeds/) when you finish. Report at the end, for each change: the files and the test-suite result line.""")
+Procedure for each: make the change, run the test suite (must pass as on the unchanged tree), save the diff, then `git checkout -- discretisedfield` to restore. Never use `git stash` (the stash is shared by all worktrees of the repository and other people work in sibling worktrees). Keep the worktree clean (apart from seeds/) when you finish. Report at the end, for each change: the files and the test-suite result line.""")
